@@ -66,6 +66,7 @@ def run_config(spec, start, script, cfg, queries=None, clock=None, keep_chart=Fa
   run = cg.Run(spec, spied=cfg.get('spied', False), **(run_kwargs or {}))
   host = cfg['host']
   sem = threading.Semaphore(0)
+  gate = threading.Lock()     # the post call (enqueue, then POST_* spy marker) returns before the object's step begins, see qrun.run
   ao = None
   try:
     if host == 'plain':
@@ -79,6 +80,8 @@ def run_config(spec, start, script, cfg, queries=None, clock=None, keep_chart=Fa
 
       class SyncAO(base):
         def next_rtc(self):
+          with gate:
+            pass
           try:
             return base.next_rtc(self)
           except BaseException as ex:   # keep the verdict in the harness thread
@@ -143,7 +146,8 @@ def run_config(spec, start, script, cfg, queries=None, clock=None, keep_chart=Fa
           chart.post_fifo(ev)
           chart.next_rtc()
         else:
-          chart.post_fifo(ev)
+          with gate:
+            chart.post_fifo(ev)
           if not sem.acquire(timeout=20):
             raise Inconclusive('active object did not finish step %d within 20 s' % k)
           if chart._vt_exc is not None:
